@@ -129,3 +129,49 @@ func init() {
 		g.raw("def syncDisconnectAssigns : List String := " + leanStrList(assignsToAny(rel, "disconnect", "up.initialSub", "up.ncRemote", "up.subRemoteUp", "up.rootRemote")))
 	})
 }
+
+// subscriptionTable lists, in source order, the entries a function puts into a subscription map:
+// "<map>[<key>] <- Subscribe(<subject>, <handler>)" for every assignment whose left-hand side indexes mapName.
+func subscriptionTable(rel, fn, mapName string) []string {
+	fd := funcDecl(rel, fn)
+	f := load(rel)
+	if fd == nil || f == nil {
+		return nil
+	}
+	var out []string
+	ast.Inspect(fd.Body, func(n ast.Node) bool {
+		as, ok := n.(*ast.AssignStmt)
+		if !ok || len(as.Lhs) < 1 || len(as.Rhs) != 1 {
+			return true
+		}
+		ix, ok := as.Lhs[0].(*ast.IndexExpr)
+		if !ok || nodeStr(f.fset, ix.X) != mapName {
+			return true
+		}
+		ce, ok := as.Rhs[0].(*ast.CallExpr)
+		if !ok {
+			return true
+		}
+		var args []string
+		for _, a := range ce.Args {
+			args = append(args, nodeStr(f.fset, a))
+		}
+		out = append(out, nodeStr(f.fset, ix.Index)+" <- "+strings.Join(args, ", "))
+		return true
+	})
+	return out
+}
+
+func init() {
+	reg("StoreRun", func(g *gen) {
+		subs := subscriptionTable("store/store.go", "Run", "st.subscriptions")
+		keys := map[string]bool{}
+		for _, s := range subs {
+			keys[strings.SplitN(s, " <- ", 2)[0]] = true
+		}
+		g.raw("def storeRunSubs : List String := " + leanStrList(subs))
+		g.boolFact("storeRunKeysDistinct", len(keys) == len(subs), "store/store.go Run: every subscription is stored under its own key of st.subscriptions")
+		g.raw("def storeRunRanges : List String := " + leanStrList(rangeExprs("store/store.go", "Run")))
+		g.raw("def storeRunCloses : List String := " + leanStrList(append(callsOf("store/store.go", "Run", "Unsubscribe"), callsOf("store/store.go", "Run", "Close")...)))
+	})
+}
